@@ -88,3 +88,16 @@ package tensor
 //@   requires [addressed] forall p :: 0 <= p && p < ap_len(d.AP) ==> 0 <= ap_seq(d.AP, p) && ap_seq(d.AP, p) < n
 //@   ensures [unmasked] old(len(d.mask) != n) ==> unbox("int", result) == old(prodInts(d.shape, len(d.shape)))
 //@   ensures [covering] old(len(d.mask) == n && n == prodInts(d.shape, len(d.shape))) ==> unbox("int", result) == old(n - countTrue(d.mask, len(d.mask)))
+
+
+// ResetMask: afterwards every mask entry has the requested value (false when none is given); a tensor without a mask
+// gets one entry per logical element first
+//@ func tensor.Dense.ResetMask
+//@   props C15
+//@   requires [size] len(t.mask) != len(t.Raw) / rsize(t.t) ==> prodInts(t.shape, len(t.shape)) >= 0
+//@   requires [val_sep] len(val) == 0 || val.arr != t.mask.arr
+//@   ensures [ok] isnil(result)
+//@   ensures [filled] forall i :: 0 <= i && i < len(t.mask) ==> t.mask[i] == (len(val) > 0 ? old(val[0]) : false)
+//@   ensures [size] old(len(t.mask) != len(t.Raw) / rsize(t.t)) ==> len(t.mask) == prodInts(t.shape, len(t.shape))
+//@   ensures [kept] old(len(t.mask) == len(t.Raw) / rsize(t.t)) ==> t.mask == old(t.mask)
+//@   assigns t.mask, whole(t.mask)
